@@ -98,6 +98,8 @@ enum Slot {
 }
 
 struct ExecSlot {
+    id: u64,
+    deadline_ns: u128,
     slot: Slot,
     cell: Rc<RefCell<HCell>>,
     fw: Arc<FlagWaker>,
@@ -168,6 +170,22 @@ impl Server {
     pub fn live_execs(&self) -> Vec<usize> {
         (0..self.execs.len()).filter(|r| self.exec_live(*r)).collect()
     }
+    /// ids of requests that are certainly still in flight for the rest of the script: live, not told to
+    /// finish, deadline at least an hour away
+    pub fn stable_ids(&self, now: u64) -> Vec<u64> {
+        (0..self.execs.len())
+            .filter(|r| {
+                self.exec_live(*r)
+                    && !self.execs[*r].cell.borrow().done
+                    && self.execs[*r].cell.borrow().finish.is_none()
+                    && self.execs[*r].deadline_ns >= now as u128 + 3_000_000_000_000
+            })
+            .map(|r| self.execs[r].id)
+            .collect()
+    }
+    pub fn live_ids(&self) -> Vec<u64> {
+        (0..self.execs.len()).filter(|r| self.exec_live(*r)).map(|r| self.execs[r].id).collect()
+    }
     pub fn unfinished_handlers(&self) -> Vec<usize> {
         (0..self.execs.len())
             .filter(|r| self.exec_live(*r) && !self.execs[*r].cell.borrow().done && self.execs[*r].cell.borrow().finish.is_none())
@@ -223,13 +241,19 @@ impl Server {
                 self.counts();
                 self.done = true;
                 self.fw.live.store(false, Ordering::SeqCst);
+                self.reqs = None; // the application drops a finished stream
             }
             Ok(Poll::Ready(Some(Err(a)))) => {
+                // like `Requests::execute`: the first error item ends serving; the stream is dropped
                 log(format!("ret {name} itemerr({a})"));
                 self.counts();
+                self.done = true;
+                self.fw.live.store(false, Ordering::SeqCst);
+                self.reqs = None;
             }
             Ok(Poll::Ready(Some(Ok(req)))) => {
                 let rid = self.execs.len();
+                let (rq_id, rq_deadline) = (req.get().id, ns_since(base(), req.get().context.deadline));
                 {
                     let r: &Request<Req> = req.get();
                     log(format!(
@@ -240,7 +264,7 @@ impl Server {
                     ));
                 }
                 let (fw, waker) = flag_waker(&format!("r{rid}"));
-                self.execs.push(ExecSlot { slot: Slot::Offered(req), cell: Rc::new(RefCell::new(HCell::default())), fw, waker });
+                self.execs.push(ExecSlot { id: rq_id, deadline_ns: rq_deadline, slot: Slot::Offered(req), cell: Rc::new(RefCell::new(HCell::default())), fw, waker });
                 log(format!("ret {name} item"));
                 self.counts();
             }
@@ -490,6 +514,8 @@ struct Gen {
     nreq: u64,
     ids: Vec<u64>,
     deadlines: Vec<u64>,
+    /// ids whose response was seen on the wire (request completed)
+    answered: Vec<u64>,
 }
 
 fn gen_op(rng: &mut Rng, sv: &Server, g: &mut Gen, p: &Params) -> Op {
@@ -518,8 +544,13 @@ fn gen_op(rng: &mut Rng, sv: &Server, g: &mut Gen, p: &Params) -> Op {
     match rng.weighted(&w) {
         0 => {
             g.nreq += 1;
-            // mostly fresh ids; sometimes a duplicate of a known id (in flight or finished)
-            let id = if !g.ids.is_empty() && rng.chance(1, 5) { *rng.pick(&g.ids) } else { g.nreq * 3 };
+            // mostly fresh ids; sometimes a duplicate of a request certainly still in flight, or the id
+            // of a completed (answered) request.  An id is not re-used after its request was cancelled,
+            // expired or abandoned: a stale buffered response could then answer the new request, which
+            // is outside the properties' quantifiers (DESIGN.md, C04 scope note).
+            let mut reuse: Vec<u64> = sv.stable_ids(g.now);
+            reuse.extend(g.answered.iter().copied().filter(|i| !sv.live_ids().contains(i)));
+            let id = if !reuse.is_empty() && rng.chance(1, 5) { *rng.pick(&reuse) } else { g.nreq * 3 };
             g.ids.push(id);
             let rel = *rng.pick(&[0u64, 300_000, 2_000_000, 20_000_000, 500_000_000, 3_600_000_000_000]);
             let sub = *rng.pick(&[0u64, 1, 999_999, 400_000]);
@@ -574,7 +605,7 @@ pub fn run_script(out: &mut Out, idx: u64, p: &Params, rng: &mut Rng, script: Op
     crate::cli::BASE.with(|b| *b.borrow_mut() = Some(tarpc::verif_hooks::now()));
     simt::take_log();
     let mut sv = Server::new("s0", p.limit, p.resp, p.cap, p.coupled);
-    let mut g = Gen { now: 0, nreq: 0, ids: vec![], deadlines: vec![] };
+    let mut g = Gen { now: 0, nreq: 0, ids: vec![], deadlines: vec![], answered: vec![] };
     let mut i = 0usize;
     loop {
         let op = match script {
@@ -594,6 +625,11 @@ pub fn run_script(out: &mut Out, idx: u64, p: &Params, rng: &mut Rng, script: Op
         i += 1;
         out.line(&format!("op {}", op.render()));
         apply(out, &rt, &mut sv, &op);
+        for m in sv.sim.borrow().wire.iter() {
+            if m.message.is_ok() && !g.answered.contains(&m.request_id) {
+                g.answered.push(m.request_id);
+            }
+        }
     }
     for e in sv.execs.iter() {
         e.fw.live.store(false, Ordering::SeqCst);
